@@ -209,6 +209,12 @@ class Fold:
         return S(n.get("qname") or n.get("name") or "?")
 
     def ev_member(self, n, env):
+        if n.get("fname") in ("first", "second") and n.get("base") is not None and unwrap(n["base"]).get("k") != "this":
+            bv = self.ev(n["base"], env)
+            if str(getattr(bv, "func", "")) in ("list", "ctor") and len(bv.args) == 2:
+                return bv.args[0 if n["fname"] == "first" else 1]       # std::pair built from {a, b}
+            if isinstance(bv, tuple) and len(bv) == 3 and bv[0] == "pair":
+                return bv[1 if n["fname"] == "first" else 2]
         if self.opaque_types and re.search(self.opaque_types, n.get("type") or ""):
             return S(show(n))
         key = ("field", show(n))
@@ -324,6 +330,8 @@ class Fold:
     def ite(self, c, a, b):
         while isinstance(c, tuple) and len(c) == 2 and c[0] == "!":
             c, a, b = c[1], b, a                 # ite(!x, a, b) == ite(x, b, a): one canonical polarity
+        if isinstance(a, tuple) and isinstance(b, tuple) and len(a) == 3 and len(b) == 3 and a[0] == "pair" and b[0] == "pair":
+            return ("pair", self.ite(c, a[1], b[1]), self.ite(c, a[2], b[2]))
         if (self.is_condval(a) or self.is_condval(b)) and not isinstance(a, Matrix) and not isinstance(b, Matrix):
             if a == b:
                 return a
@@ -384,12 +392,16 @@ class Fold:
             return args[0]
         if len(args) == 0:
             return S("%s()@%s" % (t[:30], n["id"]))
+        if len(args) == 2 and re.match(r"^(const )?std::pair<", t):
+            return ("pair", args[0], args[1])
         return F("ctor")(*[self.scalarize(a) for a in args])
 
     def ev_initlist(self, n, env):
         args = [self.ev(a, env) for a in n["args"]]
         if is_vec3(n.get("type")) and len(args) == 3:
             return Matrix(args)
+        if len(args) == 2 and re.match(r"^(const )?std::pair<", (n.get("type") or "")):
+            return ("pair", args[0], args[1])
         return F("list")(*[self.scalarize(a) for a in args])
 
     def ev_stdinitlist(self, n, env):
@@ -593,6 +605,20 @@ class Fold:
                 return self.arith(op, a0, a1)
             if op == "-" and len(args) == 1:
                 return -args[0]
+            if op in ("+=", "-=") and not isinstance(args[1], (Matrix, tuple)):
+                # M.diagonal().array() += s  /  M.diagonal() += ... on a local fixed-size matrix
+                l0 = unwrap(n["args"][0])
+                while l0.get("k") == "mcall" and (l0.get("callee") or "").split("::")[-1] in ("array", "matrix") and l0.get("obj") is not None:
+                    l0 = unwrap(l0["obj"])
+                if l0.get("k") == "mcall" and (l0.get("callee") or "").split("::")[-1] == "diagonal" and l0.get("obj") is not None:
+                    b0 = unwrap(l0["obj"])
+                    if b0.get("k") == "ref" and isinstance(env.get(b0.get("decl")), Matrix) and l0 is not unwrap(n["args"][0]):
+                        m_ = env[b0["decl"]].copy()
+                        for d_ in range(min(m_.shape)):
+                            m_[d_, d_] = m_[d_, d_] + (args[1] if op == "+=" else -args[1])
+                        env[b0["decl"]] = m_
+                        self.event({"kind": "store", "target": show(unwrap(n["args"][0])), "target_node": unwrap(n["args"][0]), "value": args[1], "node": n, "diag": True}, env)
+                        return m_
             if op in ("=", "+=", "-=", "*=", "/="):
                 lhs = unwrap(n["args"][0])
                 val = args[1]
